@@ -24,7 +24,8 @@ func (c *Sequencer) VerifMemState() string {
 	var sb strings.Builder
 	for i := 0; i < v.NumField(); i++ {
 		f := v.Type().Field(i)
-		if f.Type == verifMutexType || f.Type == verifRWMutexType || f.Type.Kind() == reflect.Interface {
+		if f.Type == verifMutexType || f.Type == verifRWMutexType || f.Type.Kind() == reflect.Interface ||
+			strings.HasSuffix(f.Type.Name(), "Mutex") { // also the lock shim's types when the package is built with it
 			continue
 		}
 		fmt.Fprintf(&sb, "%s=%v;", f.Name, v.Field(i))
